@@ -1254,6 +1254,24 @@ Section Proofs.
       + destruct (IH (Some x) l p C H) as (b & pb & Hb & Tb & Bb & Lb). exists b, pb. split; [right; exact Hb | auto].
   Qed.
 
+  (* the whole hierarchy below a serial bottom is drained by at most one thread at a time: two threads inside the drain
+     regions of lanes whose target chains end in the same bottom are the same thread *)
+  Theorem hierarchy_drain_exclusive s t1 t2 l1 l2 p1 p2 :
+    reach F s -> In (l1, p1) (stk s t1) -> locked_pc p1 = true -> In (l2, p2) (stk s t2) -> locked_pc p2 = true ->
+    bottom F l1 = bottom F l2 -> t1 = t2.
+  Proof.
+    intros R H1 K1 H2 K2 B. destruct (Inv_reachable s R) as [L T].
+    assert (Dp : forall p, locked_pc p = true -> is_drain p = true) by (intros p; destruct p; cbn; congruence).
+    assert (Dr : forall t l p, In (l, p) (stk s t) -> locked_pc p = true ->
+                 exists pb, In (bottom F l, pb) (stk s t) /\ locked_pc pb = true).
+    { intros t l p H K. destruct (T t) as (_ & _ & _ & T4 & _). destruct (shape_drain_part _ T4) as (kd & C & Ed & Sub).
+      assert (Hk : In (l, p) kd) by (rewrite <- Ed; unfold dframes; apply filter_In; split; [exact H | apply Dp; exact K]).
+      destruct (chain_bottom None kd l p C Hk) as (b & pb & Hb & _ & Bb & Lb). subst b.
+      exists pb. split; [apply Sub; exact Hb | apply Lb; exact K]. }
+    destruct (Dr t1 l1 p1 H1 K1) as (q1 & Hq1 & Kq1). destruct (Dr t2 l2 p2 H2 K2) as (q2 & Hq2 & Kq2).
+    rewrite B in Hq1. apply (lock_exclusive s t1 t2 (bottom F l2) q1 q2 R); auto.
+  Qed.
+
   Theorem global_exclusion s t1 t2 l1 l2 o1 i1 m1 o2 i2 m2 :
     reach F s -> In (l1, PW_incall o1 i1 m1) (stk s t1) -> In (l2, PW_incall o2 i2 m2) (stk s t2) ->
     bottom F l1 = bottom F l2 -> t1 = t2 /\ (l1, PW_incall o1 i1 m1) = (l2, PW_incall o2 i2 m2).
